@@ -1150,6 +1150,8 @@ def solve_case(case, grid, tf, values):
     if kind == "ivp":
         rad = grid.rgrid if isinstance(grid, AtomGrid) else grid[0].rgrid
         iv = case.get("r_interval") or (float(np.max(rad.points)), float(np.min(rad.points)))
+        if case.get("r_factor"):      # start beyond / inside the outermost shell, stop above the innermost one
+            iv = (case["r_factor"][0] * float(np.max(rad.points)), case["r_factor"][1] * float(np.min(rad.points)))
         return GP.solve_poisson_ivp(grid, values, InverseRTransform(tf), r_interval=iv, ode_params={})
     if kind == "robust":
         return GR.solve_poisson_robust(grid, values, InverseRTransform(tf), np.array(case["atnums"]), np.array(case["atoms"], float),
@@ -1243,7 +1245,16 @@ def sweep_cases(ctx: Ctx):
     add(solver="ivp", radial=("linear_trap", 4000, 1e-3, 200.0), degree=3, atoms=[[1.0, 0.0, 0.0]],
         density=[("s", [1.0, 0.0, 0.0], 1.0, round(rng.uniform(0.08, 0.5), 3)), ("s", [1.0, 0.0, 0.0], 0.5, round(rng.uniform(0.08, 0.5), 3))],
         r_interval=(200.0, 1e-3), box=8.0, cat="ivp")
+    # the integration may start beyond the outermost radial shell (the docstring recommends a large b) or inside it
+    add(solver="ivp", radial=("becke_gl", rng.choice([80, 100, 120]), 1e-3, 1.5), degree=3, atoms=[O],
+        density=[("s", O, 1.0, alpha()), ("s", O, 0.5, alpha())], r_factor=(round(rng.uniform(1.2, 1.9), 3), 2.0), cat="ivp")
+    add(solver="ivp", radial=("becke_gl", rng.choice([80, 100, 120]), 1e-3, 1.5), degree=3, atoms=[[0.5, 0.25, -1.0]],
+        density=[("s", [0.5, 0.25, -1.0], 1.0, alpha())], r_factor=(round(rng.uniform(0.3, 0.8), 3), 1.0), cat="ivp")
     if not q:
+        for _ in range(6):
+            add(solver="ivp", radial=("becke_gl", rng.choice([80, 100, 120]), rng.choice([1e-3, 0.01]), rng.choice([1.0, 1.5])), degree=rng.choice([3, 5]),
+                atoms=[O], density=[("s", O, round(rng.uniform(0.3, 2), 2), alpha()) for _ in range(rng.randint(1, 3))],
+                r_factor=(round(rng.choice([rng.uniform(1.05, 1.9), rng.uniform(0.2, 0.95)]), 3), rng.choice([1.0, 2.0, 5.0])), cat="ivp")
         for _ in range(24):
             c = [round(rng.uniform(-1, 1), 2) for _ in range(3)]
             add(solver="bvp", radial=("becke_gl", rng.choice([60, 90, 120]), rng.choice([1e-5, 1e-4, 1e-3]), rng.choice([1.0, 1.5, 2.5])),
@@ -1288,6 +1299,59 @@ def sweep_cases(ctx: Ctx):
         add(solver="ivp", radial=("linear_trap", 10000, 1e-3, 1000.0), degree=11, atoms=[O], density=[("s", O, 1.0, 0.1)],
             r_interval=(1000.0, 1e-3), box=50.0, cat="ivp")
     return cases
+
+
+def sweep_homogeneity(ctx: Ctx, out, deep: bool = False, only=None):
+    """V[c rho] = c V[rho] over many orders of magnitude of the amplitude c (linearity clause; what counts as "small" must be relative to
+    the density, not absolute).  The BVP solves get a zero initial guess (a documented solve_ode_bvp option): with the default random
+    O(1) guess the round-off of the first Newton step (about 1e-11 absolute) would drown densities of amplitude 1e-9."""
+    rng = ctx.rng
+    O = [0.0, 0.0, 0.0]
+    confs = [("bvp", [("lm", 1, rng.randint(0, 2), 1.0, round(rng.uniform(0.6, 1.5), 3), 1)], 5),
+             ("bvp", [("s", [round(rng.uniform(-0.09, 0.09), 3) for _ in range(3)], 1.0, round(rng.uniform(0.6, 1.0), 3))], 9),
+             ("ivp", [("s", O, 1.0, round(rng.uniform(0.5, 2.0), 3))], 3)]
+    if deep:
+        confs += [("bvp", [("s", O, 1.0, round(rng.uniform(0.6, 1.5), 3)), ("lm", 2, rng.randint(0, 4), 0.5, round(rng.uniform(0.6, 1.5), 3), 2)], 5),
+                  ("bvp", [("lm", 2, rng.randint(0, 4), 1.0, round(rng.uniform(0.6, 1.5), 3), 2)], 7)]
+    scales = {"bvp": [1e-9, 1e4] + ([1e-12, 1e-6, 1e-3, 1e6] if deep else []), "ivp": [1e3] + ([1e6] if deep else [])}
+    if only is not None:
+        confs, scales = [(only["solver"], [tuple(d) for d in only["density"]], only["degree"])], {only["solver"]: [only["c"]]}
+    for ci, (solver, dens, deg) in enumerate(confs):
+        rot = (only or {}).get("rotate", rng.choice([0, 11, 37]))
+        tf = BeckeRTransform(1e-3, R=1.5)
+        rad = tf.transform_1d_grid(GaussLegendre(60 if solver == "bvp" else 100))
+        ag = AtomGrid(rad, degrees=[deg], rotate=rot)
+        coords = np.zeros((1, 3))
+        case = dict(density=dens, box=2.0)
+        rho, pot, scale = density_and_potential(case, coords)
+        pts = eval_points(case, coords, np.random.default_rng([ctx.seed, 6000 + ci]), 30) if only is None else np.array([only["point"]], float)
+        base = rho(ag.points)
+        nx = int(np.sum(rad.points <= 40.0))
+
+        def solve(vals):
+            if solver == "bvp":
+                return GP.solve_poisson_bvp(ag, vals, InverseRTransform(tf), remove_large_pts=40.0, include_origin=False,
+                                            ode_params={"initial_guess_y": np.zeros((2, nx))})
+            return GP.solve_poisson_ivp(ag, vals, InverseRTransform(tf), r_interval=(float(rad.points[-1]), float(rad.points[0])), ode_params={})
+        v1 = solve(base.copy())(pts.copy())
+        for c in scales[solver]:
+            try:
+                vc = solve(c * base)(pts.copy()) / c
+            except ValueError as e:
+                if "didn't converge" in str(e) and c > 1e4:     # huge amplitudes exhaust the mesh budget of scipy's solve_bvp: not resolved
+                    ctx.count("sweep_not_converged")
+                    ctx.notes.append(f"homogeneity: ODE solver did not converge for amplitude {c:g} ({solver}, {dens})")
+                    continue
+                raise
+            dev = np.abs(vc - v1) / scale
+            j = int(np.argmax(dev))
+            ctx.case(("homogeneity", solver, ci, c))
+            ctx.count("sweep_homogeneity")
+            out.append(dict(cat="lin", err=float(dev[j]), tol=LIN_TOL, key=f"homogeneity:{solver}:conf={ci}:c={c:g}:seed={ctx.seed}",
+                            text=f"solve_poisson_{solver}: V[{c:g} * rho] / {c:g} = {float(vc[j])} but V[rho] = {float(v1[j])} (analytic {float(pot(pts[j:j + 1])[0])}) at "
+                                 f"{pts[j].tolist()}; rho = {dens} on AtomGrid(Becke(1e-3,1.5) o GaussLegendre, degrees=[{deg}], rotate={rot})",
+                            replay=dict(solver=solver, density=[list(d) for d in dens], degree=deg, rotate=rot, c=c, point=pts[j].tolist(),
+                                        got=float(vc[j]), expected=float(v1[j]))))
 
 
 def sweep_linearity(ctx: Ctx, out):
@@ -1397,9 +1461,9 @@ def sweep(ctx: Ctx):
                     f"(error {err:.3e} per unit charge, allowed {TOL}); case {case_text(case)}")
         out.append(dict(cat=case["cat"], err=(err if err != float("inf") else 1e9), tol=TOL, key=f"{case['solver']}:case={case['id']}:tier={ctx.tier}:seed={ctx.seed}",
                         text=text, replay=dict(case=case_text(case), **info)))
-    for part, cat in ((sweep_linearity, "lin"), (sweep_robust, "robust")):
+    for part, cat in ((sweep_linearity, "lin"), (sweep_homogeneity, "lin"), (sweep_robust, "robust")):
         try:
-            part(ctx, out)
+            part(ctx, out) if part is not sweep_homogeneity else part(ctx, out, not ctx.quick)
         except Exception as e:  # noqa: BLE001  -- the solvers raised on an input inside the envelope
             out.append(dict(cat=cat, err=1e9, tol=1.0, key=f"{part.__name__}:raised:{type(e).__name__}:tier={ctx.tier}:seed={ctx.seed}",
                             text=f"{part.__name__}: the solver raised {type(e).__name__}: {e} on a spherical atom-centred Gaussian density",
@@ -1785,6 +1849,23 @@ def replay(rp: dict) -> int:
               f"analytic core potential = {exp}; error per unit core charge = {abs(got - exp) / scale:.3e} (allowed 1e-9)")
         return int(not abs(got - exp) / scale <= 1e-9)
     key = str(rp.get("key", ""))
+    if key.startswith("homogeneity:"):
+        import random
+
+        class StubH:
+            seed, tier, quick = 0, "quick", True
+            rng = random.Random(0)
+
+            def case(self, *a, **k):
+                pass
+
+            def count(self, *a, **k):
+                pass
+        recs = []
+        sweep_homogeneity(StubH(), recs, False, only=rp)
+        for r in recs:
+            print(r["text"], f"-> deviation {r['err']:.3e} per unit scale (allowed {r['tol']})")
+        return int(any(not r["err"] <= r["tol"] for r in recs))
     if key.startswith("large_request:") or key.startswith("reuse:"):
         import random
 
